@@ -640,10 +640,17 @@ impl<'de> de::Deserializer<'de> for Variable {
             Variable::String(v) => visitor.visit_string(v),
             Variable::Array(v) => {
                 let len = v.len();
-                visitor.visit_seq(SeqDeserializer {
+                let mut deserializer = SeqDeserializer {
                     iter: v.into_iter(),
                     len,
-                })
+                };
+                let seq = visitor.visit_seq(&mut deserializer)?;
+                // Like serde_json: elements the visitor did not consume are an error.
+                if deserializer.iter.len() == 0 {
+                    Ok(seq)
+                } else {
+                    Err(de::Error::invalid_length(len, &"fewer elements in array"))
+                }
             }
             Variable::Object(v) => visitor.visit_map(MapDeserializer {
                 iter: v.into_iter(),
@@ -835,14 +842,20 @@ impl<'de> de::Deserializer<'de> for SeqDeserializer {
     type Error = Error;
 
     #[inline]
-    fn deserialize_any<V>(self, visitor: V) -> Result<V::Value, Error>
+    fn deserialize_any<V>(mut self, visitor: V) -> Result<V::Value, Error>
     where
         V: de::Visitor<'de>,
     {
-        if self.len == 0 {
+        let len = self.len;
+        if len == 0 {
             visitor.visit_unit()
         } else {
-            visitor.visit_seq(self)
+            let ret = visitor.visit_seq(&mut self)?;
+            if self.iter.len() == 0 {
+                Ok(ret)
+            } else {
+                Err(de::Error::invalid_length(len, &"fewer elements in array"))
+            }
         }
     }
 
